@@ -18,8 +18,8 @@ import (
 // the hand-over site; anything stored, deferred, sent to the executor or started with `go` gets no context.
 // Greatest fixed point over the module.
 type lockCtx struct {
-	cx     *Ctx
-	mu     *types.Var
+	cx *Ctx
+	mu *types.Var
 	// generalisation to other exclusive regions (the lossy buffer's busy flag): when set these replace the mutex ops
 	isRel  func(ssa.Instruction) bool
 	isTry  func(ssa.Instruction) bool
@@ -608,11 +608,105 @@ func busyContext(cx *Ctx) *lockCtx {
 	}
 	lc := &lockCtx{cx: cx, mu: busy, plain: true, sites: map[*ssa.Function][]ssa.Instruction{}, escape: map[*ssa.Function]string{},
 		entry: map[*ssa.Function]bool{}, blkIn: map[*ssa.BasicBlock]bool{}, poc: map[*ssa.Function]map[int]int{}}
-	lc.isRel = func(in ssa.Instruction) bool { return isStoreConst(in, busy, 0) }
-	lc.isTry = func(in ssa.Instruction) bool { return isCASConst(in, busy, 0, 1) }
+	lc.isRel = func(in ssa.Instruction) bool { return flagRelease(in, busy) }
+	lc.isTry = func(in ssa.Instruction) bool { return flagTry(in, busy) }
 	lc.funcs = cx.P.FuncsOfPkg(lossyPkg)
 	lc.collect()
 	lc.solve()
 	busyCtxCache[cx.P] = lc
 	return lc
+}
+
+// ---- a flag used as a try-lock, possibly wrapped in a small type ----
+// The flag is an atomic word: taken by CompareAndSwap(0,1) (success edge), released by Store(0). When the field has a
+// struct type of the module (type tableLock struct{ state atomic.Uint32 }) the operations are its methods: a method is
+// a release when all its paths store 0 into the word, a try when it returns true only if its CAS(0,1) succeeded.
+
+func innerWordFields(f *types.Var) []*types.Var {
+	var out []*types.Var
+	if st, ok := f.Type().Underlying().(*types.Struct); ok {
+		if n, isNamed := f.Type().(*types.Named); isNamed && n.Obj().Pkg() != nil && strings.HasPrefix(n.Obj().Pkg().Path(), modPath) {
+			for i := 0; i < st.NumFields(); i++ {
+				out = append(out, st.Field(i))
+			}
+		}
+	}
+	return out
+}
+
+func flagRelease(in ssa.Instruction, f *types.Var) bool {
+	if isStoreConst(in, f, 0) {
+		return true
+	}
+	c := calleeOf(in)
+	inner := innerWordFields(f)
+	if c == nil || len(inner) == 0 || !sameField(recvField(in), f) || c.Pkg == nil || !strings.HasPrefix(c.Pkg.Pkg.Path(), modPath) {
+		return false
+	}
+	return mustPerform(origin(c), func(x ssa.Instruction) bool {
+		for _, w := range inner {
+			if isStoreConst(x, w, 0) {
+				return true
+			}
+		}
+		return false
+	}, map[*ssa.Function]int{})
+}
+
+func flagTry(in ssa.Instruction, f *types.Var) bool {
+	if isCASConst(in, f, 0, 1) {
+		return true
+	}
+	c := calleeOf(in)
+	inner := innerWordFields(f)
+	if c == nil || len(inner) == 0 || !sameField(recvField(in), f) || c.Pkg == nil || !strings.HasPrefix(c.Pkg.Pkg.Path(), modPath) {
+		return false
+	}
+	return tryMethod(origin(c), inner, 0)
+}
+
+// tryMethod: the method returns a bool that is true only when a CAS(0,1) on one of the inner words succeeded.
+func tryMethod(fn *ssa.Function, inner []*types.Var, depth int) bool {
+	if fn == nil || depth > 3 || fn.Signature.Results().Len() != 1 || len(fn.Blocks) == 0 {
+		return false
+	}
+	var winning func(v ssa.Value, d int) bool
+	winning = func(v ssa.Value, d int) bool {
+		if d > 4 {
+			return false
+		}
+		switch x := v.(type) {
+		case *ssa.Const:
+			b, ok := constBool(x)
+			return ok && !b // constant false never claims the lock
+		case *ssa.Call:
+			for _, w := range inner {
+				if isCASConst(x, w, 0, 1) {
+					return true
+				}
+			}
+			// another try method on the same receiver
+			if c := calleeOf(x); c != nil && len(x.Call.Args) > 0 && len(fn.Params) > 0 && x.Call.Args[0] == ssa.Value(fn.Params[0]) {
+				return tryMethod(origin(c), inner, depth+1)
+			}
+		case *ssa.Phi:
+			for _, e := range x.Edges {
+				if !winning(e, d+1) {
+					return false
+				}
+			}
+			return true
+		}
+		return false
+	}
+	ok, n := true, 0
+	allInstrs(fn, func(in ssa.Instruction) {
+		if r, isRet := in.(*ssa.Return); isRet && len(r.Results) == 1 {
+			n++
+			if !winning(r.Results[0], 0) {
+				ok = false
+			}
+		}
+	})
+	return ok && n > 0
 }
